@@ -17,6 +17,16 @@
 #include <pistache/common.h>
 #include <pistache/os.h>
 
+// Verification hook (off by default): with PISTACHE_VERIF_HOOKS defined, a scheduling
+// point is announced before every shared-memory access / notification syscall of the
+// queues below, so that an external scheduler can explore their interleavings.
+#ifdef PISTACHE_VERIF_HOOKS
+extern "C" void pistache_verif_yield(int point);
+#define PISTACHE_VERIF_YIELD(point) pistache_verif_yield(point)
+#else
+#define PISTACHE_VERIF_YIELD(point) ((void)0)
+#endif
+
 namespace Pistache
 {
 
@@ -113,6 +123,7 @@ namespace Pistache
                 uint64_t val;
                 for (;;)
                 {
+                    PISTACHE_VERIF_YIELD(5);
                     ssize_t bytes = read(event_fd, &val, sizeof val);
                     if (bytes == -1)
                     {
@@ -220,13 +231,16 @@ namespace Pistache
             Entry* entry = new Entry(std::forward<U>(u));
             // @Note: we're using SC atomics here (exchange will issue a full fence),
             // but I don't think we should bother relaxing them for now
+            PISTACHE_VERIF_YIELD(1);
             auto* prev = head.exchange(entry);
+            PISTACHE_VERIF_YIELD(2);
             prev->next = entry;
         }
 
         virtual Entry* pop()
         {
             auto* res  = tail;
+            PISTACHE_VERIF_YIELD(3);
             auto* next = res->next.load(std::memory_order_acquire);
             if (next)
             {
@@ -301,6 +315,7 @@ namespace Pistache
             if (isBound())
             {
                 uint64_t val = 1;
+                PISTACHE_VERIF_YIELD(4);
                 TRY(write(event_fd, &val, sizeof val));
             }
         }
@@ -314,6 +329,7 @@ namespace Pistache
                 uint64_t val;
                 for (;;)
                 {
+                    PISTACHE_VERIF_YIELD(5);
                     ssize_t bytes = read(event_fd, &val, sizeof val);
                     if (bytes == -1)
                     {
